@@ -973,3 +973,127 @@ Proof.
   - apply (json_tree_roundtrip_bare (JNum g)). exact Hg.
   - reflexivity.
 Qed.
+
+
+(* ---------- WithoutQualifiers ---------- *)
+Lemma bytes_eqb_eq : forall a b, bytes_eqb a b = true <-> a = b.
+Proof.
+  unfold bytes_eqb. induction a as [|x a IH]; intros [|y b]; cbn [list_eqb]; split; intros H; try discriminate; try reflexivity.
+  - apply andb_true_iff in H. destruct H as [H1 H2]. apply Z.eqb_eq in H1. apply IH in H2. subst. reflexivity.
+  - inversion H; subst. rewrite Z.eqb_refl. cbn [andb]. apply IH. reflexivity.
+Qed.
+
+Lemma bytes_eqb_refl : forall a, bytes_eqb a a = true.
+Proof. intros. apply bytes_eqb_eq. reflexivity. Qed.
+
+Lemma name_count_cons : forall s x l,
+  name_count s (x :: l) = ((if bytes_eqb s x then 1 else 0) + name_count s l)%nat.
+Proof. intros. unfold name_count. cbn [filter]. destruct (bytes_eqb s x); reflexivity. Qed.
+
+Lemma name_count_pos : forall (g : list Z -> list Z) l b, In b l -> (1 <= name_count (g b) (map g l))%nat.
+Proof.
+  induction l as [|x l IH]; intros b Hb; [contradiction|]. cbn [map]. rewrite name_count_cons.
+  destruct Hb as [->|Hb].
+  - rewrite bytes_eqb_refl. lia.
+  - specialize (IH b Hb). lia.
+Qed.
+
+Lemma name_count_two : forall (g : list Z -> list Z) l a b, In a l -> In b l -> a <> b -> g a = g b ->
+  (2 <= name_count (g a) (map g l))%nat.
+Proof.
+  induction l as [|x l IH]; intros a b Ha Hb Hne Hg; [contradiction|]. cbn [map]. rewrite name_count_cons.
+  destruct Ha as [->|Ha]; destruct Hb as [->|Hb].
+  - congruence.
+  - rewrite bytes_eqb_refl. pose proof (name_count_pos g l b Hb) as P. rewrite <- Hg in P. lia.
+  - rewrite Hg. rewrite bytes_eqb_refl. pose proof (name_count_pos g l a Ha) as P. rewrite Hg in P. lia.
+  - pose proof (IH a b Ha Hb Hne Hg). lia.
+Qed.
+
+Definition no_dot (s : list Z) : bool := negb (existsb (fun c => c =? 46) s).
+
+Lemma after_dot_none : forall s, no_dot s = true -> after_dot s = None.
+Proof.
+  unfold no_dot. induction s as [|c s IH]; intros H; [reflexivity|]. cbn [existsb] in H.
+  apply negb_true_iff in H. apply orb_false_iff in H. destruct H as [H1 H2]. cbn [after_dot]. rewrite H1.
+  apply IH. apply negb_true_iff. exact H2.
+Qed.
+Lemma short_name_no_dot : forall s, no_dot s = true -> short_name s = s.
+Proof. intros s H. unfold short_name. rewrite after_dot_none by exact H. reflexivity. Qed.
+
+Lemma NoDup_map_inj_in : forall (A B : Type) (f : A -> B) (l : list A),
+  NoDup l -> (forall a b, In a l -> In b l -> f a = f b -> a = b) -> NoDup (map f l).
+Proof.
+  induction l as [|x l IH]; intros Hnd Hinj; [constructor|]. inversion Hnd; subst. cbn [map]. constructor.
+  - intros Hin. apply in_map_iff in Hin. destruct Hin as [y [Hy Hyl]].
+    assert (y = x) by (apply Hinj; [right; exact Hyl|left; reflexivity|exact Hy]). subst. contradiction.
+  - apply IH; [assumption|]. intros a b Ha Hb. apply Hinj; right; assumption.
+Qed.
+
+Lemma wq_names : forall fields,
+  map fst (without_qualifiers fields) = map (out_name (map short_name (map fst fields))) (map fst fields).
+Proof. intros. unfold without_qualifiers. rewrite !map_map. reflexivity. Qed.
+
+Lemma wq_types : forall fields, map snd (without_qualifiers fields) = map snd fields.
+Proof. intros. unfold without_qualifiers. rewrite map_map. reflexivity. Qed.
+
+(* distinct columns keep distinct names, provided no column name holds a '.' after its qualifier *)
+Theorem wq_names_distinct : forall fields,
+  NoDup (map fst fields) -> forallb (fun n => no_dot (short_name n)) (map fst fields) = true ->
+  NoDup (map fst (without_qualifiers fields)).
+Proof.
+  intros fields Hnd Hdots. rewrite wq_names. set (names := map fst fields) in *. clearbody names.
+  apply NoDup_map_inj_in; [exact Hnd|]. intros a b Ha Hb E.
+  destruct (list_eq_dec Z.eq_dec a b) as [|Hne]; [assumption|exfalso].
+  rewrite forallb_forall in Hdots. pose proof (Hdots a Ha) as Da. pose proof (Hdots b Hb) as Db.
+  unfold out_name in E.
+  destruct (Nat.eqb_spec (name_count (short_name a) (map short_name names)) 1) as [Ca|Ca];
+  destruct (Nat.eqb_spec (name_count (short_name b) (map short_name names)) 1) as [Cb|Cb].
+  - pose proof (name_count_two short_name names a b Ha Hb Hne E) as H2. rewrite Ca in H2. exact (Nat.nle_succ_diag_l _ H2).
+  - (* short a = b: b has no dot, so it is its own short name *)
+    assert (Sb : short_name b = b) by (apply short_name_no_dot; rewrite <- E; exact Da).
+    assert (E' : short_name a = short_name b) by congruence.
+    pose proof (name_count_two short_name names a b Ha Hb Hne E') as H2. rewrite Ca in H2. exact (Nat.nle_succ_diag_l _ H2).
+  - assert (Sa : short_name a = a) by (apply short_name_no_dot; rewrite E; exact Db).
+    assert (E' : short_name a = short_name b) by congruence.
+    pose proof (name_count_two short_name names a b Ha Hb Hne E') as H2. rewrite E' in H2. rewrite Cb in H2. exact (Nat.nle_succ_diag_l _ H2).
+  - contradiction.
+Qed.
+
+(* the executable distinctness test used by the oracle decides NoDup *)
+Lemma nodupb_spec : forall l, nodupb l = true <-> NoDup l.
+Proof.
+  induction l as [|x l IH]; cbn [nodupb]; split; intros H; try constructor; try reflexivity.
+  - apply andb_true_iff in H. destruct H as [H1 H2]. apply negb_true_iff in H1. intros Hin.
+    assert (existsb (bytes_eqb x) l = true) by (apply existsb_exists; exists x; split; [exact Hin|apply bytes_eqb_refl]). congruence.
+  - apply IH. apply andb_true_iff in H. tauto.
+  - inversion H; subst. apply andb_true_iff. split; [|apply IH; assumption].
+    apply negb_true_iff. destruct (existsb (bytes_eqb x) l) eqn:Ex; [|reflexivity].
+    apply existsb_exists in Ex. destruct Ex as [y [Hy Hxy]]. apply bytes_eqb_eq in Hxy. subst. contradiction.
+Qed.
+
+(* SetSchema keeps the column types, so a row conforms to the printed schema iff it conforms to the given one *)
+Lemma wq_row_typed : forall fields row, row_typed (without_qualifiers fields) row = row_typed fields row.
+Proof.
+  intros fields. unfold without_qualifiers. generalize (map (fun f : list Z * fty => short_name (fst f)) fields) as shorts.
+  intros shorts. induction fields as [|f fields IH]; intros row; [reflexivity|].
+  destruct row as [|v row]; [reflexivity|]. cbn [map row_typed snd]. rewrite IH. reflexivity.
+Qed.
+
+Lemma wq_nonempty : forall fields, fields <> [] -> without_qualifiers fields <> [].
+Proof. intros [|f fields] H; [congruence|discriminate]. Qed.
+
+(* the pathological shape left out by the hypothesis above: a name with two dots can collide *)
+Lemma wq_collision_with_dotted_column :
+  exists fields, NoDup (map fst fields) /\ ~ NoDup (map fst (without_qualifiers fields)).
+Proof.
+  exists [([113; 46; 120; 46; 121], TScalar 1); ([120; 46; 121], TScalar 1); ([122; 46; 121], TScalar 1)].
+  split.
+  - apply nodupb_spec. vm_compute. reflexivity.
+  - intros H. apply nodupb_spec in H. vm_compute in H. discriminate.
+Qed.
+
+Lemma wq_kept : forall fields,
+  map snd (without_qualifiers fields) = map snd fields /\
+  (forall row, row_typed (without_qualifiers fields) row = row_typed fields row) /\
+  (fields <> [] -> without_qualifiers fields <> []).
+Proof. intros fields. split; [apply wq_types|split; [apply wq_row_typed|apply wq_nonempty]]. Qed.
